@@ -78,6 +78,7 @@ def fam_loop():
         "xmp": [(), (("class", "k"),)],              # raw-text element (allowed with attributes in some recipes)
         "d\u0130v": [(), (("title", "t"),)],           # look-alike of an allowed name (U+0130 lower-cases to ASCII i)
         "blink": [()],                               # unknown
+        "o:b": [(), (("title", "t"),)],              # a prefixed spelling of an allowed name is another element
         "donn\u00e9es": [()],                           # unknown, non-ASCII name, in the skip set of some recipes
         "object": [()],                              # unknown, skip set
         "frame": [()],                               # unknown, skip set, void
@@ -143,7 +144,8 @@ URLS = ["http://example.org/a?b=1&c=2", "https://e.com", "/rel/path", "#frag", "
         "http://u:p@example.org/", "\x01javascript:alert(1)", "x:y", "?q=1", "http://example.com/\u00e9",
         " http://example.org/lead", "https://e.com/trail\n", "data:image/png;base64,iVBO\nRw0KGgo=",
         "https:opaque.example/p.gif", "httpx://e.com/", "a b", "x\ty", "/caf\u00e9/menu", "http://e.com/%zz",
-        "/p?a\u00a0#", "?q\u2003#", "http://e.com/?a=1&amp;amp;b=2"]     # Unicode white space in front of an empty fragment
+        "/p?a\u00a0#", "?q\u2003#", "http://e.com/?a=1&amp;amp;b=2",
+        "http://example.org/search?q=free money", "http://example.org/#a b"]     # Unicode white space in front of an empty fragment
 
 def fam_url():
     """C03: every listed URL position x the URL catalogue x scheme allowlists / custom checks / relative / rewriter."""
@@ -213,6 +215,7 @@ def fam_forced():
     # script is emitted only under AllowUnsafe: it is one of the five elements the crossorigin clause names
     recipes.append(base + [call("AllowUnsafe", b=True), call("RequireCrossOriginAnonymous", b=True)])
     recipes.append(base + [call("AllowDataURIImages"), call("AllowRelativeURLs", b=True), call("RequireCrossOriginAnonymous", b=True)])
+    recipes.append([call("NewPolicy"), AA(["src", "class"], ["iframe", "img"]), call("RequireSandboxOnIFrame", vals=["allow-forms"])])
     alpha = (av("crossorigin", ["anonymous", "use-credentials", ""]) +
              av("sandbox", ["allow-forms", "allow-forms allow-forms", "allow-scripts bogus\tallow-forms", "", "ALLOW-FORMS",
                             "allow-popups allow-popups-to-escape-sandbox"]) +
@@ -247,7 +250,7 @@ STYLES = ["color: red", "color: red; background: url(javascript:alert(1))", "COL
           "background-image: url('http://e.com/a;b.png')", "/* c */ color: blue", "color", "color: r\\65 d",
           "font-family: \\110000 x", "color: re\\20 d", "font-size: 12px; color: blue; width: 1px", "-moz--webkit-color: red", "",
           "color: r\\65D", "color: b\\6Cue", "width: 1px", "COLOR: \\52 ED", "width: red", "color: #fff",
-          "color: \\5c 72 ed", "color: r\\0 ed", " ", "color: red; "]      # an escape that decodes to a backslash in front of hex digits: decoded once, never rescanned
+          "color: \\5c 72 ed", "color: r\\0 ed", " ", "color: red; ", "color: r/**/ed", "color: re/* ; */d; width: 1px", "margin-inline-start: 1px; margin: 1px; overflow-anchor: auto"]      # an escape that decodes to a backslash in front of hex digits: decoded once, never rescanned
 
 def fam_style():
     """C10: style rules at the three scopes with the four matcher kinds."""
@@ -262,6 +265,7 @@ def fam_style():
         base + [AS(["color"], "els", els=["span"], enum="e:red"), AS(["color"], "els", els=["span"], re="r:^blue$"),
                 AS(["color"], "pat", pat="^sp", enum="e:green")],
         base + [AS(["nosuchprop", "color"], "els", els=["span"])],
+        base + [AS(["margin-inline-start", "overflow-anchor", "margin"], "els", els=["span"])],   # no default handler of their own, though a prefix has one
         base + [AS(["color"], "els", els=["span"], enum="e:Red|BLUE"), AS(["text-align"], "glob", enum="e:Center")],   # enumerations compare case-insensitively
         # an element with style rules of its own AND matched by a pattern that carries rules for another property: own rules win
         base + [AS(["color"], "els", els=["custom-x"]), AS(["width"], "pat", pat="^custom-")],
@@ -308,7 +312,7 @@ def fam_ugc():
     """C04: the shipped policies against vocabulary tokens and hostile tokens."""
     recipes = [[call("UGCPolicy")], [call("StrictPolicy")]]
     js = "javascript:alert(1)"
-    toks = [tok("start", "p"), tok("end", "p"), tok("start", "b"), tok("end", "b"),
+    toks = [tok("start", "p"), tok("end", "p"), tok("start", "b"), tok("end", "b"), tok("start", "bdi"), tok("end", "bdi"),
             tok("start", "a", (("href", "http://e.com/x"),)), tok("start", "a", (("href", js),)), tok("start", "a", (("href", js), ("title", "x"))), tok("start", "a", (("href", "/r"), ("onclick", "x"), ("style", "color:red"))),
             tok("end", "a"), tok("start", "img", (("src", "/i.png"), ("alt", "x"))), tok("start", "img", (("src", "x"), ("onerror", "alert(1)"))),
             tok("start", "img", (("src", "data:image/png;base64,iVBORw0KGgo="),)),
@@ -320,7 +324,7 @@ def fam_ugc():
             tok("self", "input", (("id", "i"), ("type", "image"))), tok("self", "form", (("id", "f"),)), tok("self", "button"), tok("self", "meta", (("id", "m"),)),
             tok("self", "iframe", (("id", "x"), ("src", "http://e.com"))),
             tok("start", "a", (("href", "http://e.com/"), ("xml:href", js))), tok("start", "p", (("xml:lang", "en"), ("xml:id", "i"))),
-            tok("start", "a", (("href", "java script:x"), ("href", js))), tok("start", "a", (("href", "http://e.com/?a=1&amp;amp;b=2"),)), tok("start", "img", (("src", "/i.png"), ("srcset", "data:text/html,x 1x"))),   # prefixed spellings of allowed names
+            tok("start", "a", (("href", "java script:x"), ("href", js))), tok("start", "a", (("href", "http://e.com/?a=1&amp;amp;b=2"),)), tok("start", "a", (("href", "/" + "\u00e9" * 800),)), tok("start", "img", (("src", "/i.png"), ("srcset", "data:text/html,x 1x"))),   # prefixed spellings of allowed names
             tok("start", "iframe", (("src", "http://e.com"),)), tok("end", "iframe"), tok("start", "object"), tok("end", "object"),
             tok("start", "svg"), tok("start", "math"), tok("start", "form"), tok("start", "input", (("type", "image"), ("src", js))),
             tok("start", "base", (("href", "//x"),)), tok("start", "meta"), tok("start", "link", (("rel", "stylesheet"), ("href", "x"))),
@@ -348,6 +352,7 @@ def fam_policy():
         call("AllowRelativeURLs", b=True), call("AllowRelativeURLs", b=False), call("RequireParseableURLs", b=False),
         call("AddTargetBlankToFullyQualifiedLinks", b=True),
         call("SkipElementsContent", names=["B", "div"]), call("AllowElementsContent", names=["SCRIPT", "b", "object"]),
+        call("SkipElementsContent", names=["style", "svg", "blink"]),
         call("RequireSandboxOnIFrame", vals=["allow-forms"]), call("RequireSandboxOnIFrame", vals=["allow-scripts"]),
         call("AllowIFrames", vals=["allow-forms", "allow-scripts"]),
         call("AllowComments"), call("AllowDataAttributes"), call("AddSpaceWhenStrippingTag", b=True), call("AddSpaceWhenStrippingTag", b=False),
@@ -362,7 +367,7 @@ def fam_policy():
 def fam_policy3():
     """C17, histories of three calls: a reduced call alphabet (case variants, overlapping patterns, toggles, zero-value start)."""
     f = fam_policy()
-    keep = [0, 2, 3, 4, 6, 7, 8, 9, 11, 12, 14, 16, 18, 19, 24, 26, 27]
+    keep = [0, 2, 3, 4, 6, 7, 8, 9, 11, 12, 14, 16, 18, 19, 24, 26, 27, 28]
     f["calls"] = [f["calls"][i] for i in keep]
     f["ctorpairs"] = [f["ctorpairs"][1], f["ctorpairs"][2]]
     f["name"] = "policy3"
